@@ -1139,3 +1139,10 @@ m('H6-metadata-mismatch-skips-to-the-next-node', 'C06', 'H6', 'EqualTo/', 'src/t
             continue;
         }
         EXPECT_EQ(a->num_leaves, b->num_leaves);""")
+m('I5-cached-fields-read-on-a-miss', 'C16', 'I5', 'StructSequenceGetFields/*iterator', 'include/optree/pytypes.h',
+  """        const auto it = cache.find(type);
+        if (it != cache.end()) [[likely]] {
+            return py::reinterpret_borrow<py::tuple>(it->second);""",
+  """        const auto it = cache.find(type);
+        if (it == cache.end()) [[likely]] {
+            return py::reinterpret_borrow<py::tuple>(it->second);""")
